@@ -183,7 +183,7 @@ def main(tier, seed, replay=None):
     themes = gen.run_themes(THEMES, tier, rep, jobs=7)
     work = []
     meta = []
-    mod = 12 if tier == 'quick' else 1
+    mod = 12 if tier == 'quick' else 4
     n = 0
     shapes = set()
     for name in THEMES:
